@@ -264,13 +264,24 @@ func (r *RibTable) CleanUpFace(faceId uint64) {
 	r.mutex.Lock()
 	defer r.mutex.Unlock()
 
-	r.RibEntry.cleanUpFace(faceId)
+	// First take the routes of the face out of the whole RIB, then refresh the FIB from
+	// the top, then prune. The forwarding threads look the FIB up without the RIB mutex:
+	// refreshing entries while shorter prefixes still hold routes of the face (or longer
+	// ones still lack their refresh) would publish next-hop sets of a RIB that never
+	// existed - e.g. once a capture route of the face is gone, the face's inheritable
+	// routes on shorter prefixes would make it a new next hop of the names below.
+	// Refreshed from the top, every FIB entry goes from its old value straight to its
+	// final one, and an entry only disappears after the entries it falls back to are final.
+	r.RibEntry.removeFaceRoutes(faceId)
+	r.RibEntry.updateNexthopsEnc()
+	r.RibEntry.pruneSubtree()
 }
 
-func (r *RibEntry) cleanUpFace(faceId uint64) {
-	// Recursively clean children
+// removeFaceRoutes removes the routes of the face from the entry and from all entries below
+// it. It changes neither the FIB nor the shape of the tree.
+func (r *RibEntry) removeFaceRoutes(faceId uint64) {
 	for child := range r.children {
-		child.cleanUpFace(faceId)
+		child.removeFaceRoutes(faceId)
 	}
 
 	if r.Name == nil {
@@ -287,7 +298,13 @@ func (r *RibEntry) cleanUpFace(faceId uint64) {
 		}
 	}
 	r.routes = kept
-	r.updateNexthopsEnc()
+}
+
+// pruneSubtree removes the entries at and below the entry that have neither routes nor children.
+func (r *RibEntry) pruneSubtree() {
+	for child := range r.children {
+		child.pruneSubtree()
+	}
 	r.pruneIfEmpty()
 }
 
